@@ -728,7 +728,8 @@ func (r *hRunner) RunBlock(b HBlock, feed *BlockFeed) (BlockTrace, BlockFeed) {
 	}
 	bb := n.BeginBlock(in)
 	tr := BlockTrace{Height: n.Header.Height, Begin: digestEvents(bb.Events)}
-	if n.Header.Height == 1 {
+	if acc := n.App.EvmKeeper.GetAccountOrEmpty(n.Ctx(), hFanoutAddr); len(n.App.EvmKeeper.GetCode(n.Ctx(), common.BytesToHash(acc.CodeHash))) == 0 {
+		// first block of the chain: install the fixed helper contracts (a state-derived condition, identical on every replica)
 		for i, code := range hProg().Compile() {
 			n.InstallCode(evmasm.FrameAddr(i), code)
 		}
